@@ -95,6 +95,115 @@ def d1_pseudo_family(ctx, repo, st):
            "" if ok else f"reset skips devices under {[A.norm(s.test) for s in sk]}", where=where(rs, rs.node))
 
 
+def _stash_hook(repo, wrapper):
+    """The message processor handed to plan_mutator by the wrapper: a nested def, or the closure returned by a module-level
+    factory.  -> (function node, owner Func, {name inside the hook: expression text in the wrapper})"""
+    calls = [c for c in A.calls_in(wrapper.node) if A.call_name(c) == "plan_mutator" and len(c.args) >= 2]
+    for c in calls:
+        x = c.args[1]
+        bind = {}
+        if isinstance(x, ast.Name):
+            nested = repo.funcs.get(f"{PP}:{wrapper.qualname}.{x.id}")
+            if nested is not None:
+                return nested.node, nested, bind
+            defs = q.local_defs(wrapper.node, x.id)
+            if len(defs) == 1 and isinstance(defs[0], ast.Assign):
+                x = defs[0].value
+        if isinstance(x, ast.Call) and isinstance(x.func, ast.Name):
+            fac = repo.funcs.get(f"{PP}:{x.func.id}")
+            if fac is not None:
+                params = [a.arg for a in fac.node.args.args]
+                for pname, arg in zip(params, x.args):
+                    bind[pname] = A.norm(arg)
+                for k in x.keywords:
+                    if k.arg:
+                        bind[k.arg] = A.norm(k.value)
+                rets = [r.value.id for r in A.walk_stmts(fac.node.body) if isinstance(r, ast.Return) and isinstance(r.value, ast.Name)]
+                for r in rets:
+                    inner = repo.funcs.get(f"{PP}:{fac.qualname}.{r}")
+                    if inner is not None:
+                        return inner.node, inner, bind
+    return None, None, {}
+
+
+def d1_stash_hook(ctx, repo, wname):
+    """The hook inserts read-and-stash in front of a message exactly when: the message is a 'set', the device is eligible, and
+    the device is NOT YET IN THE STASH (initial_positions) - decided as a truth table over those three atoms.  'Not yet in the
+    stash' matters: __read_and_stash_a_motor also stashes the parent and siblings of a pseudo axis; a separate 'already handled'
+    record does not know about them, so a sibling's first set would stash the whole family again after it has moved."""
+    import itertools
+
+    from .. import booleval
+
+    rule = "C24.D1-stash-before-first-set"
+    w = repo.func(PP, wname)
+    node, owner, bind = _stash_hook(repo, w)
+    if node is None:
+        ctx.ob(rule, cname(w, None, "message processor handed to plan_mutator"), False, "no hook inserting the initial-position reads was found", where=where(w, w.node))
+        return
+    store = "initial_positions"
+    store_in_hook = next((k for k, v in bind.items() if v == store), store)
+    msgp = node.args.args[0].arg if node.args.args else "msg"
+    stash_calls = [c for c in A.calls_in(node) if (A.call_name(c) or "").endswith("__read_and_stash_a_motor")]
+    ok = len(stash_calls) == 1 and len(stash_calls[0].args) >= 2 and A.norm(stash_calls[0].args[0]) == f"{msgp}.obj" and A.norm(stash_calls[0].args[1]) == store_in_hook
+    ctx.ob(rule, cname(owner, None, f"[{wname}] stashes {msgp}.obj into the wrapper's initial_positions"), ok,
+           "" if ok else "the position is stashed somewhere else / for another object", where=where(owner, node))
+    if not stash_calls:
+        return
+    # the If under whose true branch the stash is returned
+    pm = A.parents(node)
+    n, guard, polarity = stash_calls[0], None, True
+    while n in pm:
+        parent = pm[n]
+        if isinstance(parent, ast.If):
+            guard, polarity = parent, any(n is x or n in list(ast.walk(x)) for x in parent.body)
+            break
+        n = parent
+    if guard is None:
+        ctx.ob(rule, cname(owner, None, f"[{wname}] the stash is conditional"), False, "the position is stashed on every message", where=where(owner, node))
+        return
+    # atoms: local boolean names are replaced by their definitions
+    def expand(e, depth=0):
+        if isinstance(e, ast.Name) and depth < 3:
+            defs = [d for d in A.walk_stmts(node.body) if isinstance(d, ast.Assign) and any(isinstance(t, ast.Name) and t.id == e.id for t in d.targets)]
+            if len(defs) == 1:
+                return expand(defs[0].value, depth + 1)
+        if isinstance(e, ast.BoolOp):
+            return ast.BoolOp(op=e.op, values=[expand(v, depth) for v in e.values])
+        if isinstance(e, ast.UnaryOp) and isinstance(e.op, ast.Not):
+            return ast.UnaryOp(op=e.op, operand=expand(e.operand, depth))
+        return e
+    test = expand(guard.test)
+    devs = next((k for k, v in bind.items() if v == "devices"), "devices")
+    a_set, a_none, a_in, a_seen = f"{msgp}.command == 'set'", f"{devs} is None", f"{msgp}.obj in {devs}", f"{msgp}.obj in {store_in_hook}"
+    a_unseen = f"{msgp}.obj not in {store_in_hook}"
+    bad = None
+    for v_set, v_none, v_in, v_seen in itertools.product([True, False], repeat=4):
+        env = {a_set: v_set, a_none: v_none, a_in: v_in, a_seen: v_seen, a_unseen: not v_seen}
+        got = booleval.ev(test, env)
+        want = v_set and (v_none or v_in) and not v_seen
+        if got is None:
+            bad = ("unknown", env)
+            break
+        if (got if polarity else not got) != want:
+            bad = ("differs", env)
+            break
+    ok = bad is None
+    detail = ""
+    if bad and bad[0] == "unknown":
+        detail = (f"the condition `{A.short(guard.test, 80)}` depends on something other than (is a set, device eligible, device already in initial_positions): "
+                  "if 'already stashed' is not membership in the stash itself, a device stashed as part of a pseudo-positioner family is stashed again after it moved "
+                  "(relative offsets and the reset then start from the moved position)")
+    elif bad:
+        detail = f"for set={bad[1][a_set]}, devices-is-None={bad[1][a_none]}, in-devices={bad[1][a_in]}, already-stashed={bad[1][a_seen]} the hook " \
+                 f"{'does not stash' if (bad[1][a_set] and (bad[1][a_none] or bad[1][a_in]) and not bad[1][a_seen]) else 'stashes'} the position"
+    ctx.ob(rule, cname(owner, None, f"[{wname}] stash iff set and eligible and not yet in initial_positions (16-row truth table)"), ok, detail, nontrivial=True, where=where(owner, guard))
+    # the original message follows the stash
+    txt = A.norm(node)
+    ok = f"single_gen({msgp})" in txt and "pchain(" in txt
+    ctx.ob(rule, cname(owner, None, f"[{wname}] the stash is followed by the original set"), ok, "" if ok else "the original message is lost / precedes the stash", where=where(owner, node))
+
+
 def run(ctx):
     repo = ctx.repo
     ctx.explanation = (
@@ -118,14 +227,7 @@ def run(ctx):
     ok = bool(ifs) and ifs[0].orelse and A.norm(ifs[0].orelse[-1]) == "return msg"
     ctx.ob("C24.D1-offset-from-initial", cname(rp, None, "other messages pass unchanged"), ok, "" if ok else "other messages altered", where=where(rp, rp.node))
     for wname in ("relative_set_wrapper", "reset_positions_wrapper"):
-        ir = repo.func(PP, f"{wname}.insert_reads")
-        txt = A.norm(ir.node)
-        ok = "seen = msg.obj in initial_positions" in txt and "msg.command == 'set' and eligible and (not seen)" in txt and \
-            "pchain(__read_and_stash_a_motor(msg.obj, initial_positions, coupled_parents), single_gen(msg))" in txt
-        ctx.ob("C24.D1-stash-before-first-set", cname(ir, None, "initial position stashed before the first set of an eligible device, then the set itself"), ok,
-               "" if ok else "the stash is missing / happens after the move / happens on every set", nontrivial=True, where=where(ir, ir.node))
-        ok = ("eligible = devices is None or msg.obj in devices" in txt)
-        ctx.ob("C24.D1-stash-before-first-set", cname(ir, None, "eligible = all devices or the given ones"), ok, "" if ok else "eligibility changed", where=where(ir, ir.node))
+        d1_stash_hook(ctx, repo, wname)
     st = repo.func(PP, "__read_and_stash_a_motor")
     ok = any(A.norm(s) == "initial_positions[obj] = setpoint" for s in A.walk_stmts(st.node.body))
     ctx.ob("C24.D1-stash-before-first-set", cname(st, None, "initial_positions[obj] = the located / read setpoint"), ok, "" if ok else "stash target changed", where=where(st, st.node))
@@ -208,6 +310,7 @@ CLAIM = {
 P = "preprocessors.py"
 L = "plans.py"
 MUTANTS = [
+    ("relative wrapper: 'already stashed' tracked in a separate set (seed C24-b)", [(P, "def relative_set_wrapper(plan, devices=None):", "def _stash_hook_factory(devs, stash, parents):\n    handled = set()\n\n    def insert_reads(msg):\n        eligible = (devs is None) or (msg.obj in devs)\n        if (msg.command == \"set\") and eligible and msg.obj not in handled:\n            handled.add(msg.obj)\n            return (\n                pchain(\n                    __read_and_stash_a_motor(msg.obj, stash, parents),\n                    single_gen(msg),\n                ),\n                None,\n            )\n        else:\n            return None, None\n\n    return insert_reads\n\n\ndef relative_set_wrapper(plan, devices=None):"), (P, "    def insert_reads(msg):\n        eligible = (devices is None) or (msg.obj in devices)\n        seen = msg.obj in initial_positions\n        if (msg.command == \"set\") and eligible and not seen:\n            return (\n                pchain(\n                    __read_and_stash_a_motor(msg.obj, initial_positions, coupled_parents),\n                    single_gen(msg),\n                ),\n                None,\n            )\n        else:\n            return None, None\n\n    plan = plan_mutator(plan, insert_reads)\n    plan = msg_mutator(plan, rewrite_pos)", "    insert_reads = _stash_hook_factory(devices, initial_positions, coupled_parents)\n    plan = plan_mutator(plan, insert_reads)\n    plan = msg_mutator(plan, rewrite_pos)")], "C24.D1-stash"),
     ("siblings of a pseudo axis not stashed", [(P, "        initial_positions[parent] = parent_pos\n        for c, p in zip(parent.pseudo_positioners, parent_pos):\n            initial_positions[c] = p", "        initial_positions[parent] = parent_pos")], "C24.D1-pseudo"),
     ("children of a moved parent not stashed", [(P, "    if obj in coupled_parents:\n        for c, p in zip(obj.pseudo_positioners, setpoint):\n            initial_positions[c] = p", "    if obj in coupled_parents:\n        pass")], "C24.D1-pseudo"),
     ("parent stashed from the axis' setpoint", [(P, "        initial_positions[parent] = parent_pos\n", "        initial_positions[parent] = setpoint\n")], "C24.D1-pseudo"),
@@ -222,4 +325,6 @@ MUTANTS = [
     ("mvr goes straight to mv", [("plan_stubs.py", "    @relative_set_decorator(objs)\n    def inner_mvr():", "    def inner_mvr():")], "C24.D3"),
     ("rel_list_scan wraps scan instead of list_scan", [(L, "        return (yield from list_scan(detectors, *args, per_step=per_step, md=_md))\n\n    return (yield from inner_relative_list_scan())", "        return (yield from scan(detectors, *args, per_step=per_step, md=_md))\n\n    return (yield from inner_relative_list_scan())")], "C24.D3"),
 ]
-BENIGN = []
+BENIGN = [
+    ("relative wrapper: hook built by a module-level factory, same condition", [(P, "def relative_set_wrapper(plan, devices=None):", "def _stash_hook_factory(devs, stash, parents):\n    def insert_reads(msg):\n        eligible = (devs is None) or (msg.obj in devs)\n        if (msg.command == \"set\") and eligible and msg.obj not in stash:\n            return (\n                pchain(\n                    __read_and_stash_a_motor(msg.obj, stash, parents),\n                    single_gen(msg),\n                ),\n                None,\n            )\n        else:\n            return None, None\n\n    return insert_reads\n\n\ndef relative_set_wrapper(plan, devices=None):"), (P, "    def insert_reads(msg):\n        eligible = (devices is None) or (msg.obj in devices)\n        seen = msg.obj in initial_positions\n        if (msg.command == \"set\") and eligible and not seen:\n            return (\n                pchain(\n                    __read_and_stash_a_motor(msg.obj, initial_positions, coupled_parents),\n                    single_gen(msg),\n                ),\n                None,\n            )\n        else:\n            return None, None\n\n    plan = plan_mutator(plan, insert_reads)\n    plan = msg_mutator(plan, rewrite_pos)", "    insert_reads = _stash_hook_factory(devices, initial_positions, coupled_parents)\n    plan = plan_mutator(plan, insert_reads)\n    plan = msg_mutator(plan, rewrite_pos)")]),
+]
